@@ -56,6 +56,9 @@ def _fromisoformat(ex, st, args, kwargs, fn):
 
 def _dt_attr(ex, st, ref, attr):
     o = st.heap[ref.oid]
+    if attr in ("hour", "minute", "second"):
+        ls = (Sc.iv(o.fields["_u"].t) + Sc.iv(o.fields["_o"].t)) % DAY
+        return [(st, SV(mk_i({"hour": ls / 3600, "minute": (ls % 3600) / 60, "second": ls % 60}[attr]), "int"))]
     if attr == "tzinfo":
         out = []
         for s, nv in ex.branch(st, Sc.bv(o.fields["_naive"].t)):
@@ -105,7 +108,7 @@ assumed.LIBRARY["datetime.astimezone"] = _astimezone
 assumed.LIBRARY["datetime.time"] = _time
 assumed.LIBRARY["datetime.isoformat"] = _isoformat
 assumed.LIBRARY["datetime.utcoffset"] = _utcoffset
-for _a in ("tzinfo", "astimezone", "time", "isoformat", "utcoffset"):
+for _a in ("tzinfo", "astimezone", "time", "isoformat", "utcoffset", "hour", "minute", "second"):
     assumed.ATTR_LIBRARY["datetime." + _a] = _dt_attr
 assumed.LIBRARY["ext:pytz.timezone()"] = lambda ex, st, args, kwargs, fn: [(st, Opaque("tz:timezone"))]
 
@@ -125,6 +128,66 @@ def _g_eu_offset(ex, st, args, kwargs, fn):
 assumed.LIBRARY["ghost.dt_instant"] = _g_dt_instant
 assumed.LIBRARY["ghost.dt_offset"] = _g_dt_offset
 assumed.LIBRARY["ghost.eu_offset"] = _g_eu_offset
+
+
+# ---- native reading of the ghost state (replay) ---------------------------------------------------------------------------
+def _native_parse(args):
+    from datetime import datetime
+    s = args.get("entered_input")
+    if not s:
+        return None
+    try:
+        return datetime.fromisoformat(s.replace("Z", "+00:00") if s.endswith("Z") else s)
+    except ValueError:
+        return None
+
+
+def _native_overflow(args):
+    import pytz
+    d = _native_parse(args)
+    if d is None or d.tzinfo is None:
+        return False
+    try:
+        d.astimezone(pytz.timezone("Europe/Berlin"))
+        d.astimezone(pytz.utc)
+        return False
+    except OverflowError:
+        return True
+
+
+GHOST_NATIVE = {
+    "iso_ok": lambda a: _native_parse(a) is not None,
+    "iso_naive": lambda a: _native_parse(a) is not None and _native_parse(a).tzinfo is None,
+    "iso_offset": lambda a: int(_native_parse(a).utcoffset().total_seconds()) if _native_parse(a) is not None
+    and _native_parse(a).tzinfo is not None else 0,
+    "iso_instant": lambda a: int(_native_parse(a).timestamp()) if _native_parse(a) is not None
+    and _native_parse(a).tzinfo is not None else 0,
+    "raised_OverflowError": _native_overflow,
+}
+
+
+def _concretize_string(ex, s, m, values):
+    """an ISO-8601 string for the (instant, offset) the counter-model chose"""
+    from datetime import datetime, timedelta, timezone
+    out = {}
+    for k, v in values.items():
+        out[k] = None
+    u = m.eval(Sc.iv(s.ghost["iso_instant"].t), model_completion=True).as_long()
+    o = m.eval(Sc.iv(s.ghost["iso_offset"].t), model_completion=True).as_long() if "iso_offset" in s.ghost else 0
+    ok = z3.is_true(m.eval(Sc.bv(s.ghost["iso_ok"].t), model_completion=True))
+    naive = z3.is_true(m.eval(Sc.bv(s.ghost["iso_naive"].t), model_completion=True))
+    if not ok:
+        text = "not a datetime"
+    else:
+        try:
+            d = datetime.fromtimestamp(u, tz=timezone(timedelta(seconds=o)))
+            text = d.replace(tzinfo=None).isoformat() if naive else d.isoformat()
+        except (OverflowError, ValueError, OSError):
+            return None
+    from pyvc.contracts import to_native
+    for k, v in values.items():
+        out[k] = text if k == "entered_input" else to_native(ex, s, m, v)
+    return out
 
 
 # ---- contracts ------------------------------------------------------------------------------------------------------------
@@ -207,6 +270,8 @@ class ParseAsDatetime:
 class IsXtagLimit:
     """fulfilled iff the string parses to an aware datetime whose instant is the limit of the division's day (and the
     conversion does not leave the representable range); message iff unfulfilled; never raises"""
+    ghost_native = GHOST_NATIVE
+    concretize = _concretize_string
     params = dict(entered_input=Opt(Str()), division=AnyOf(Const("Strom"), Const("Gas")))
     raises = {}
     setup = _defaults
@@ -239,6 +304,8 @@ class IsXtagLimit:
 @contract(G + "has_no_utc_offset", prop=["C20"])
 class HasNoUtcOffset:
     """931: fulfilled iff the datetime is written with a zero UTC offset (whatever the time of day)"""
+    ghost_native = GHOST_NATIVE
+    concretize = _concretize_string
     params = dict(entered_input=Opt(Str()))
     raises = {}
     setup = _defaults
